@@ -198,6 +198,9 @@ def check(ctx):
         raise Infra("the storage-fault window never made a lease write fail: the fault scenarios are vacuous")
     st["tlc_generated_behaviours_replayed"] = len(scns)
     if prop == "C02":
+        # in composition (whole chains, Conv): dynamic clients behind server_id / file / option plugins
+        from . import fam_conv
+        st.update(fam_conv.run(ctx))
         h = ctx.need_harness()
         wd = ctx.scratch.sub("range-conc")
         t = os.path.join(wd, "probe.ndjson")
@@ -233,7 +236,12 @@ def check(ctx):
 
 def replay(ctx, path):
     meta = json.load(open(os.path.join(path, "meta.json")))
-    if meta.get("job") == "probe":
+    if meta.get("family") == "conv":
+        from . import fam_conv
+        return fam_conv.replay(ctx, path)
+    if meta.get("job") == "fault":
+        j = _job(ctx, "replay", None, _rerun(["-mode", "fault", "-count", 30, "-seed", str(meta.get("seed", 1))]))
+    elif meta.get("job") == "probe":
         j = _job(ctx, "replay", None, _rerun(["-mode", "probe"]))
     elif meta.get("job") == "conc":
         j = _job(ctx, "replay", None, _rerun(["-mode", "conc", "-rounds", 4, "-seed", meta.get("seed", 1)]))
